@@ -1,6 +1,6 @@
 (** Properties/C03.v — Errors carry the most specific source span and never lose it.
     Statements only. *)
-From DarlingModel Require Import Err.ErrTree Err.ErrProofs Conv.Routing Conv.RoutingProofs Run.Recv Run.RecvProofs.
+From DarlingModel Require Import Err.ErrTree Err.ErrProofs Conv.Routing Conv.RoutingProofs Run.Recv Run.RecvProofs Run.InsideProofs Run.LeafTotal Run.LeafInside Exec.RecvCase Exec.RecvInside.
 Local Open Scope list_scope.
 
 (** A span once attached is never replaced: [with_span] fills an empty span only. *)
@@ -84,6 +84,88 @@ Theorem C03_field_error_span_is_item_or_more_specific :
                        end) = Err x.
 Proof. exact extract_err_span. Qed.
 
+(** The spans the leaves of an error end up with when it is flattened ([lspans]: own, else that of
+    the nearest spanned enclosing bundle) are the spans of the plain tree traversal [leaves]. *)
+Theorem C03_effective_spans_are_the_leaf_spans :
+  forall e pre inh, map snd (leaves pre inh e) = lspans inh e.
+Proof. exact lspans_leaves. Qed.
+
+(** Derived receivers of ANY shape and depth (structs, newtypes, unit structs, enums, Option / Box
+    / darling::Result around them, nested arbitrarily): an error returned for a meta item [m] has
+    EVERY leaf spanned, inside [m]; an error returned for an item list has every spanned leaf
+    inside one of the items.  Inputs: any positionally well-formed token tree ([wfp]).  Outside
+    the derived code: library leaf targets satisfying the same contract ([ok_leaf]; discharged
+    below for the plain ones), [with = ..] callables blaming only the item they were given, other
+    user functions (which never see the input) returning span-less errors. *)
+Theorem C03_every_leaf_inside_the_offending_item :
+  forall pf reparse reparse_arr reparse_preds sugg sim interp_with interp_fn (ok_leaf : Targets.target -> Prop),
+    (forall tg, ok_leaf tg -> inside_fm (leaf_fm pf reparse reparse_arr reparse_preds tg)) ->
+    (forall w it e, is_meta it = true -> wfp it -> interp_with w it = Err e -> okw (in_span (i_span (ninfo it))) None e) ->
+    (forall g v e, interp_fn g v = Err e -> unsp e) ->
+    forall t, leaves_ok ok_leaf t ->
+      (forall m e, is_meta m = true -> wfp m ->
+         from_meta (impl_of pf reparse reparse_arr reparse_preds sugg sim interp_with interp_fn t) m = Err e ->
+         Forall (fun o => match o with Some s => span_inside s (i_span (ninfo m)) = true | None => False end) (lspans None e))
+      /\ (forall l e, Forall wfp l ->
+         from_list (impl_of pf reparse reparse_arr reparse_preds sugg sim interp_with interp_fn t) l = Err e ->
+         Forall (fun o => match o with
+                          | Some s => exists it, In it l /\ span_inside s (i_span (ninfo it)) = true
+                          | None => True
+                          end) (lspans None e)).
+Proof. exact impl_inside. Qed.
+
+(** The leaf contract holds for the library's plain targets (unit, bool, AtomicBool, char, String,
+    PathBuf, the 24 integer types, floats for any float oracle, Flag, and Option / smart pointers /
+    darling::Result / keyed maps over them) ... *)
+Theorem C03_plain_targets_point_inside :
+  forall pf reparse reparse_arr reparse_preds t, plain t = true -> inside_fm (fm_of pf reparse reparse_arr reparse_preds t).
+Proof. exact plain_inside. Qed.
+
+(** ... so for receivers built from them the theorem has no assumption about the library. *)
+Theorem C03_receivers_over_plain_targets :
+  forall pf reparse reparse_arr reparse_preds sugg sim interp_with interp_fn,
+    (forall w it e, is_meta it = true -> wfp it -> interp_with w it = Err e -> okw (in_span (i_span (ninfo it))) None e) ->
+    (forall g v e, interp_fn g v = Err e -> unsp e) ->
+    forall t, leaves_ok (fun tg => plain tg = true) t ->
+      inside_fm (impl_of pf reparse reparse_arr reparse_preds sugg sim interp_with interp_fn t).
+Proof.
+  intros pf reparse reparse_arr reparse_preds sugg sim interp_with interp_fn Hw Hf t L.
+  apply (impl_inside pf reparse reparse_arr reparse_preds sugg sim interp_with interp_fn (fun tg => plain tg = true)); auto.
+  intros tg P. now apply plain_inside.
+Qed.
+
+(** The instance the correspondence check evaluates (Exec/RecvCase.v: the fixed library of user
+    callables of the corpus, any oracle tables, any case): no assumption is left except the
+    receiver mentioning plain targets only and the input being positionally well-formed, which the
+    check evaluates on every input ([wfpb], sound by [wfpb_sound]). *)
+Theorem C03_checked_instance :
+  forall c : caseRecv, leaves_ok (fun tg => plain tg = true) (rc_ty c) -> inside_fm (recv_fm c).
+Proof. exact checked_instance_inside. Qed.
+
+Theorem C03_executable_well_formedness_is_sound : forall n, wfpb n = true -> wfp n.
+Proof. exact wfpb_sound. Qed.
+
+(** The premises are satisfiable and the conclusion is not vacuous: a two-level receiver over
+    plain targets, a positionally well-formed input with a misspelt nested name. *)
+Local Open Scope string_scope.
+Local Open Scope list_scope.
+Example C03_inside_nonvacuous :
+  let mk s := mkInfo s "" in
+  let pth s n := mkPath (mk s) false [(n, "")] in
+  let inner := TStructR (mkCI "Inner" None None false None None)
+                 [(mkFI "size" "size" None None None false false false, TLeaf (TInt (mkIty false 8 false)))] in
+  let outer := TStructR (mkCI "Outer" None None false None None)
+                 [(mkFI "inner" "inner" None None None false false false, inner)] in
+  let input := NList (mk (1, 0, 1, 20)%N) (pth (1, 0, 1, 1)%N "x") (mk (1, 1, 1, 20)%N)
+                 [NList (mk (1, 2, 1, 19)%N) (pth (1, 2, 1, 7)%N "inner") (mk (1, 7, 1, 19)%N)
+                    [NNameValue (mk (1, 8, 1, 18)%N) (pth (1, 8, 1, 12)%N "sise")
+                       (ELit (mk (1, 15, 1, 18)%N) (LInt "300" ""))]] in
+  leaves_ok (fun tg => plain tg = true) outer /\ wfp input
+  /\ exists e, from_meta (impl_of (fun _ _ => None) (fun _ _ => None) (fun _ => None) (fun _ => None) false (fun _ _ => 0%N)
+                                  (fun _ _ => Ok VUnit) (fun _ _ => Ok VUnit) outer) input = Err e
+               /\ lspans None e = [Some (1, 8, 1, 18)%N; Some (1, 2, 1, 19)%N].
+Proof. cbv zeta. split; [cbn; auto|]. split; [vm_compute; tauto|]. eexists. split; vm_compute; reflexivity. Qed.
+
 Print Assumptions C03_with_span_first_writer_wins.
 Print Assumptions C03_location_and_span_independent.
 Print Assumptions C03_flatten_preserves_or_inherits.
@@ -93,3 +175,9 @@ Print Assumptions C03_defaults_attach_item_span.
 Print Assumptions C03_defaults_keep_inner_span.
 Print Assumptions C03_struct_loop_errors_spanned.
 Print Assumptions C03_field_error_span_is_item_or_more_specific.
+Print Assumptions C03_effective_spans_are_the_leaf_spans.
+Print Assumptions C03_every_leaf_inside_the_offending_item.
+Print Assumptions C03_plain_targets_point_inside.
+Print Assumptions C03_receivers_over_plain_targets.
+Print Assumptions C03_checked_instance.
+Print Assumptions C03_executable_well_formedness_is_sound.
